@@ -54,6 +54,11 @@ pub fn tags_of(msg: &str) -> Vec<String> {
 
 /// Does the message report a violation of one of the accepted properties?
 pub fn accepted(accept: &[&str], msg: &str) -> bool {
+    // which key sizes a device accepts is part of its on-disk format: the sequential
+    // oracle's "InvalidKeySize expected / not expected" verdicts belong to C10 as well
+    if accept.contains(&"C10") && msg.contains("InvalidKeySize") {
+        return true;
+    }
     let tags = tags_of(msg);
     if tags.is_empty() {
         return tag_of(msg).is_some_and(|t| accept.contains(&t.as_str()));
